@@ -30,15 +30,19 @@ func init() { register("C10", "other", checkC10) }
 //     every digit alike; its digit step, a function of two bytes and a carry, is
 //     verified over its finite domain: quick tier on the boundary bytes
 //     {0,1,0x7f,0x80,0xfe,0xff}, thorough tier on all 2^17 cases (second digit of
-//     a two-byte addition, with and without incoming carry), against
-//     (x + y) mod 2^16.
+//     a three-byte addition with zero third digits, with and without incoming
+//     carry), against the exact sum: digit and outgoing carry.
 func checkC10(c *Ctx) {
 	c.Rule("C10.width", "Value.setWidth(w), walked with distinguishable bytes for every (length, w) in 0..3 x 0..3, yields the first min(length, w) bytes followed by zero bytes")
 	c.Rule("C10.ltu", "Ltu, which only compares bytes, walked over every pair of byte strings of length <= 2 over three values at widths 1..3, is the unsigned less-than of the little-endian numbers reduced to the width")
 	c.Rule("C10.nand", "Nand touches bytes bitwise only and, walked over all pairs of 1- and 2-byte values of a 2-bit universe, yields the complement of the bytewise conjunction at the operation width")
-	c.Rule("C10.add", "the digit step of Add (two bytes and the incoming carry), walked as the second digit of a two-byte addition, yields (x + y) mod 2^16: boundary bytes in the quick tier, all 2^17 cases in the thorough tier")
+	c.Rule("C10.add", "the digit step of Add (two bytes and the incoming carry), walked as the second digit of a three-byte addition whose third digits are zero (so that the outgoing carry is visible), yields the exact sum: boundary bytes in the quick tier, all 2^17 cases in the thorough tier")
+
+	c.Rule("C10.bigint", "Value.bigInt(w), walked with distinguishable bytes for every (length, w) in 0..3 x 0..3, hands (*big.Int).SetBytes the big-endian bytes of the value reduced to w bytes")
+	c.Rule("C10.operands", "in every function of package expreval that takes Values and an operation width, a Value operand is used only by handing it, together with that width, to a width-adjusting method (Value, Width) -> Value / *big.Int (C10.width, C10.bigint) or to another such function: no byte of an operand is looked at before the operand is cut / zero-extended to the width")
 
 	epkg := ModulePath + "/" + pkgEval
+	checkC10Operands(c, epkg)
 	fn := func(name string) *ssa.Function {
 		f := c.Prog.Func(epkg + "." + name)
 		if f == nil || f.Blocks == nil {
@@ -153,6 +157,10 @@ func checkC10(c *Ctx) {
 		c.Saw("nand_cases", fmt.Sprintf("%d", n))
 	}
 
+	// ---- C10.shift
+	c.Rule("C10.shift", "Lsh and Rsh, given the shift amount that the big.Int conversion of the second operand reports (that conversion is not decided), walked for one-byte and two-byte operands (boundary bytes in the quick tier, all 2^16 two-byte values in the thorough tier) and shift amounts below, at and beyond the operation width, yield (x << s) mod 2^(8w) and x >> s; an amount of at least the bit width, or beyond 64 bits, yields zero")
+	checkC10Shifts(c, fn("Lsh"), fn("Rsh"))
+
 	// ---- C10.add
 	if ad := fn("Add"); ad != nil {
 		var digits []int64
@@ -170,12 +178,13 @@ func checkC10(c *Ctx) {
 					if bad != "" {
 						break
 					}
-					a, b := []int64{low[0], x}, []int64{low[1], y}
-					h := newByteHeap(ad, map[*ssa.Parameter][]int64{ad.Params[0]: a, ad.Params[1]: b}, 2)
+					// a third, zero digit shows the carry the step hands on
+					a, b := []int64{low[0], x, 0}, []int64{low[1], y, 0}
+					h := newByteHeap(ad, map[*ssa.Parameter][]int64{ad.Params[0]: a, ad.Params[1]: b}, 3)
 					got, why := h.run()
 					n++
-					sum := (little(a) + little(b)) & 0xffff
-					want := []int64{int64(sum & 0xff), int64(sum >> 8)}
+					sum := (little(a) + little(b)) & 0xffffff
+					want := []int64{int64(sum & 0xff), int64(sum >> 8 & 0xff), int64(sum >> 16)}
 					if why != "" {
 						bad = fmt.Sprintf("%#x + %#x: %s", little(a), little(b), why)
 					} else if !sameBytes(got, want) {
@@ -209,6 +218,265 @@ func checkC10(c *Ctx) {
 		}
 		c.Oblige("C10.add", ShortName(ad), c.Prog.FuncPos(ad), bad == "", bad)
 		c.Saw("add_cases", fmt.Sprintf("%d", n))
+	}
+}
+
+// checkC10Operands: rules C10.operands and C10.bigint.
+func checkC10Operands(c *Ctx, epkg string) {
+	isWidthT := func(t types.Type) bool { return TypeNameIs(t, "pkg/expr.Width") }
+	isValueT := func(t types.Type) bool {
+		_, isPtr := t.(*types.Pointer)
+		return !isPtr && isEvalValueT(t)
+	}
+	// the shape of a function: its Value parameters, its one Width parameter
+	type shape struct {
+		vals    []int
+		w       int
+		adapter bool // a method of Value whose only other parameter is the width
+	}
+	shapes := map[*ssa.Function]shape{}
+	var fns []*ssa.Function
+	for _, f := range c.Prog.FuncsIn(epkg) {
+		if f.Blocks == nil || f.Parent() != nil {
+			continue
+		}
+		sh := shape{w: -1}
+		nW := 0
+		for i, p := range f.Params {
+			switch {
+			case isValueT(p.Type()):
+				sh.vals = append(sh.vals, i)
+			case isWidthT(p.Type()):
+				sh.w = i
+				nW++
+			}
+		}
+		if len(sh.vals) == 0 || nW != 1 {
+			continue
+		}
+		sh.adapter = f.Signature.Recv() != nil && isValueT(f.Signature.Recv().Type()) && len(f.Params) == 2
+		shapes[f] = sh
+		fns = append(fns, f)
+	}
+	nOps, nAdapters := 0, 0
+	for _, f := range fns {
+		sh := shapes[f]
+		if sh.adapter {
+			nAdapters++
+			res := f.Signature.Results()
+			switch {
+			case res.Len() == 1 && isValueT(res.At(0).Type()):
+				// walked by C10.width
+			case res.Len() == 1 && res.At(0).Type().String() == "*math/big.Int":
+				bad, n := "", 0
+				for l := 0; l <= 3 && bad == ""; l++ {
+					for w := 0; w <= 3 && bad == ""; w++ {
+						in := []int64{0x11, 0x22, 0x33}[:l]
+						h := newByteHeap(f, map[*ssa.Parameter][]int64{f.Params[0]: in}, int64(w))
+						_, why := h.walk()
+						n++
+						at := fmt.Sprintf("length %d, width %d", l, w)
+						switch {
+						case why != "":
+							bad = at + ": " + why
+						case h.setBytes == nil:
+							bad = at + ": nothing is handed to big.Int.SetBytes"
+						default:
+							var got, want uint64
+							for _, b := range *h.setBytes {
+								got = got<<8 | uint64(b&0xff)
+							}
+							for i := l - 1; i >= 0; i-- {
+								if i < w {
+									want = want<<8 | uint64(in[i])
+								}
+							}
+							if got != want {
+								bad = fmt.Sprintf("%s: the number built is %#x, the value reduced to the width is %#x", at, got, want)
+							}
+						}
+					}
+				}
+				c.Oblige("C10.bigint", ShortName(f), c.Prog.FuncPos(f), bad == "", bad)
+				c.Saw("bigint_cases", fmt.Sprintf("%d", n))
+			default:
+				// a conversion of a finished value (Const): not an operation, and no
+				// adapter an operation may hand an operand to
+				delete(shapes, f)
+			}
+		}
+	}
+	for _, f := range fns {
+		sh, ok := shapes[f]
+		if !ok || sh.adapter {
+			continue
+		}
+		wParam := ssa.Value(f.Params[sh.w])
+		for _, vi := range sh.vals {
+			p := f.Params[vi]
+			nOps++
+			bad := ""
+			var judge func(v ssa.Value)
+			judge = func(v ssa.Value) {
+				if v.Referrers() == nil {
+					return
+				}
+				for _, r := range *v.Referrers() {
+					switch x := r.(type) {
+					case *ssa.DebugRef:
+					case *ssa.Store:
+						// a value receiver / operand spilled to a local: its loads stand for it
+						al, ok := x.Addr.(*ssa.Alloc)
+						if !ok || x.Val != v || al.Referrers() == nil {
+							bad = c.Prog.Pos(x.Pos())
+							continue
+						}
+						for _, rr := range *al.Referrers() {
+							switch y := rr.(type) {
+							case *ssa.UnOp:
+								judge(y)
+							case *ssa.Store, *ssa.DebugRef:
+							default:
+								bad = c.Prog.Pos(rr.Pos())
+							}
+						}
+					case *ssa.Call:
+						g := x.Call.StaticCallee()
+						gs, known := shapes[g]
+						if g == nil || !known {
+							bad = c.Prog.Pos(x.Pos())
+							continue
+						}
+						// handed over as a Value operand, together with this function's width
+						asVal := false
+						for _, i := range gs.vals {
+							if i < len(x.Call.Args) && x.Call.Args[i] == v {
+								asVal = true
+							}
+						}
+						if !asVal || gs.w >= len(x.Call.Args) || Unwrap(x.Call.Args[gs.w]) != wParam {
+							bad = c.Prog.Pos(x.Pos())
+						}
+					default:
+						bad = c.Prog.Pos(r.Pos())
+					}
+				}
+			}
+			judge(p)
+			c.Oblige("C10.operands", ShortName(f)+"/"+p.Name(), c.Prog.FuncPos(f), bad == "", "the operand is looked at (at "+bad+") without first being cut / zero-extended to the operation width: bytes above the width, or missing below it, take part in the result")
+		}
+	}
+	c.RequireCount("C10.operands Value operands of expreval operations", nOps, 12)
+	c.RequireCount("C10.bigint width-adjusting methods", nAdapters, 2)
+}
+
+// checkC10Shifts: rule C10.shift.
+func checkC10Shifts(c *Ctx, lsh, rsh *ssa.Function) {
+	little := func(bs []int64) uint64 {
+		var v uint64
+		for i := len(bs) - 1; i >= 0; i-- {
+			v = v<<8 | uint64(bs[i]&0xff)
+		}
+		return v
+	}
+	for _, fn := range []*ssa.Function{lsh, rsh} {
+		if fn == nil {
+			continue
+		}
+		left := fn == lsh
+		var operands [][]int64
+		quickBytes := []int64{0x00, 0x01, 0x80, 0xff, 0xa5}
+		for _, b := range quickBytes {
+			operands = append(operands, []int64{b})
+		}
+		if c.Tier == "thorough" {
+			for v := 0; v < 65536; v++ {
+				operands = append(operands, []int64{int64(v & 0xff), int64(v >> 8)})
+			}
+		} else {
+			for _, a := range quickBytes {
+				for _, b := range quickBytes {
+					operands = append(operands, []int64{a, b})
+				}
+			}
+		}
+		operands = append(operands, []int64{0x81, 0x42, 0xc3}, []int64{0xff, 0xff, 0xff}, []int64{0x01, 0x00, 0x80})
+		bad, n := "", 0
+		boundary := map[int64]bool{}
+		for _, b := range quickBytes {
+			boundary[b] = true
+		}
+		type opnd struct {
+			bytes []int64
+			w     int
+		}
+		var cases []opnd
+		for _, x := range operands {
+			cases = append(cases, opnd{x, len(x)})
+			// an operand wider or narrower than the operation: cut / zero-extended first
+			isB := true
+			for _, b := range x {
+				isB = isB && boundary[b]
+			}
+			if isB || len(x) == 3 {
+				if len(x) > 1 {
+					cases = append(cases, opnd{x, len(x) - 1})
+				}
+				cases = append(cases, opnd{x, len(x) + 1})
+			}
+		}
+		for _, cs := range cases {
+			w := cs.w
+			x := make([]int64, w) // the operand at the operation width
+			copy(x, cs.bytes)
+			shifts := []int64{0, 1, 2, 3, 4, 5, 6, 7, 8, 9, 12, 15, 16, 17, int64(8*w - 1), int64(8 * w), int64(8*w + 1), 1 << 20}
+			if w == 2 && len(cs.bytes) == 2 {
+				if boundary[x[0]] && boundary[x[1]] {
+					shifts = []int64{0, 1, 4, 7, 8, 9, 15, 16, 17, 1 << 20}
+					if c.Tier == "thorough" {
+						shifts = []int64{0, 1, 2, 3, 4, 5, 6, 7, 8, 9, 12, 15, 16, 17, 1 << 20}
+					}
+				} else {
+					// (thorough tier) every pair of adjacent bytes under every bit shift: the
+					// step of the in-place bit shift; whole-byte moves only copy
+					shifts = []int64{1, 2, 3, 4, 5, 6, 7}
+				}
+			} else if len(cs.bytes) != w {
+				shifts = []int64{0, 1, 7, 8, 9, int64(8*w - 1), int64(8 * w), 1 << 20}
+			}
+			for _, sh := range append(shifts, -1) { // -1: the amount does not fit a uint64
+				if bad != "" {
+					break
+				}
+				h := newByteHeap(fn, map[*ssa.Parameter][]int64{fn.Params[0]: cs.bytes, fn.Params[1]: {0}}, int64(w))
+				h.hasShift, h.shiftFits, h.shiftRaw = true, sh >= 0, sh
+				got, why := h.run()
+				n++
+				var v uint64
+				if sh >= 0 && sh < int64(8*w) {
+					if left {
+						v = little(x) << uint(sh)
+					} else {
+						v = little(x) >> uint(sh)
+					}
+				}
+				want := make([]int64, w)
+				for i := range want {
+					want[i] = int64(v >> (8 * uint(i)) & 0xff)
+				}
+				at := fmt.Sprintf("%#x (%d bytes) shifted by %d at width %d", little(cs.bytes), len(cs.bytes), sh, w)
+				if sh < 0 {
+					at = fmt.Sprintf("%#x (%d bytes) shifted by an amount beyond 64 bits at width %d", little(cs.bytes), len(cs.bytes), w)
+				}
+				if why != "" {
+					bad = at + ": " + why
+				} else if !sameBytes(got, want) {
+					bad = fmt.Sprintf("%s = %v (little-endian bytes), expected %v", at, got, want)
+				}
+			}
+		}
+		c.Oblige("C10.shift", ShortName(fn), c.Prog.FuncPos(fn), bad == "", bad)
+		c.Saw("shift_cases", fmt.Sprintf("%s: %d", ShortName(fn), n))
 	}
 }
 
@@ -250,6 +518,15 @@ type byteHeap struct {
 	calls  []*ssa.Call
 	crash  string
 	why    string
+	// the shift amount as the big.Int conversion of the second operand reports it
+	// (the conversion itself is not decided): fits a uint64 or not, and its value
+	shiftFits bool
+	shiftRaw  int64
+	hasShift  bool
+	// what (*big.Int).SetBytes was last handed
+	setBytes *[]int64
+	// []byte parameters of the walked function
+	slices map[*ssa.Parameter]*[]int64
 }
 
 func isByteSliceT(t types.Type) bool {
@@ -259,6 +536,20 @@ func isByteSliceT(t types.Type) bool {
 	}
 	b, ok := s.Elem().Underlying().(*types.Basic)
 	return ok && b.Kind() == types.Uint8
+}
+
+// byteArrayLen: t is *[n]byte.
+func byteArrayLen(t types.Type) (int64, bool) {
+	p, ok := t.Underlying().(*types.Pointer)
+	if !ok {
+		return 0, false
+	}
+	a, ok := p.Elem().Underlying().(*types.Array)
+	if !ok {
+		return 0, false
+	}
+	b, ok := a.Elem().Underlying().(*types.Basic)
+	return a.Len(), ok && b.Kind() == types.Uint8
 }
 
 func isEvalValueT(t types.Type) bool {
@@ -298,9 +589,30 @@ func newByteHeap(root *ssa.Function, in map[*ssa.Parameter][]int64, width int64)
 				return vw.n, true
 			}
 		}
+		if call, ok := v.(*ssa.Call); ok && h.hasShift && call.Call.StaticCallee() != nil && call.Call.StaticCallee().String() == "(*math/big.Int).Uint64" {
+			return h.shiftRaw, true
+		}
 		return 0, false
 	}
+	h.vl.Bool = func(v ssa.Value) (bool, bool) {
+		if call, ok := v.(*ssa.Call); ok && h.hasShift && call.Call.StaticCallee() != nil && call.Call.StaticCallee().String() == "(*math/big.Int).IsUint64" {
+			return h.shiftFits, true
+		}
+		return false, false
+	}
 	h.vl.Visit = h.visit
+	// a []byte loop variable that is resliced every iteration: what it stands for
+	// is fixed when the phi is entered
+	h.vl.PhiHook = func(phi *ssa.Phi, incoming ssa.Value) {
+		if !isByteSliceT(phi.Type()) {
+			return
+		}
+		if vw, ok := h.viewOf(incoming); ok {
+			h.views[phi] = vw
+		} else {
+			delete(h.views, phi)
+		}
+	}
 	return h
 }
 
@@ -316,6 +628,10 @@ func (h *byteHeap) viewOf(v ssa.Value) (bview, bool) {
 	old := h.vl.SetFrame(fr)
 	defer h.vl.SetFrame(old)
 	switch x := r.(type) {
+	case *ssa.Parameter:
+		if in, ok := h.slices[x]; ok {
+			return bview{in, 0, int64(len(*in))}, true
+		}
 	case *ssa.Field:
 		if fieldNameOf(x) == "bs" {
 			return h.valueOf(x.X)
@@ -352,9 +668,31 @@ func (h *byteHeap) valueOf(v ssa.Value) (bview, bool) {
 		if in, ok := h.inputs[x]; ok {
 			return bview{in, 0, int64(len(*in))}, true
 		}
+	case *ssa.Const:
+		// the zero Value: no bytes
+		empty := []int64{}
+		return bview{&empty, 0, 0}, true
 	case *ssa.UnOp:
 		if al, ok := x.X.(*ssa.Alloc); ok && x.Op == token.MUL {
 			vw, ok := h.cells[al]
+			if !ok && al.Referrers() != nil {
+				// a zero-valued local (Value{}) that nothing was stored into
+				stores := 0
+				for _, r := range *al.Referrers() {
+					switch y := r.(type) {
+					case *ssa.Store:
+						if y.Addr == ssa.Value(al) {
+							stores++
+						}
+					case *ssa.FieldAddr:
+						stores++
+					}
+				}
+				if stores == 0 {
+					empty := []int64{}
+					return bview{&empty, 0, 0}, true
+				}
+			}
 			return vw, ok
 		}
 	case *ssa.Alloc:
@@ -384,10 +722,24 @@ func (h *byteHeap) visit(in ssa.Instruction) {
 			h.fail("the length of a new buffer cannot be evaluated")
 			return
 		}
-		buf := make([]int64, n)
+		capN, ok := h.vl.EvalInt(x.Cap, nil)
+		if !ok || capN < n || capN > 1<<12 {
+			h.fail("the capacity of a new buffer cannot be evaluated")
+			return
+		}
+		buf := make([]int64, capN)
 		h.views[x] = bview{&buf, 0, n}
+	case *ssa.Alloc:
+		// a local byte array (the argument list of an append among them)
+		if n, ok := byteArrayLen(x.Type()); ok {
+			buf := make([]int64, n)
+			h.views[x] = bview{&buf, 0, n}
+		}
 	case *ssa.Slice:
-		if !isByteSliceT(x.Type()) || !isByteSliceT(x.X.Type()) {
+		if !isByteSliceT(x.Type()) {
+			return
+		}
+		if _, isArr := byteArrayLen(x.X.Type()); !isArr && !isByteSliceT(x.X.Type()) {
 			return
 		}
 		base, ok := h.viewOf(x.X)
@@ -430,6 +782,33 @@ func (h *byteHeap) visit(in ssa.Instruction) {
 			h.loads[x] = n
 			return
 		}
+		if isBuiltin(x, "append") && isByteSliceT(x.Type()) {
+			dst, ok1 := h.viewOf(x.Call.Args[0])
+			src, ok2 := h.viewOf(x.Call.Args[1])
+			if !ok1 || !ok2 {
+				h.fail("the operands of append cannot be evaluated")
+				return
+			}
+			add := append([]int64(nil), src.bytes()...)
+			if dst.off+dst.n+src.n <= int64(len(*dst.buf)) {
+				// room in the buffer: written in place, as the compiled code does
+				copy((*dst.buf)[dst.off+dst.n:], add)
+				h.views[x] = bview{dst.buf, dst.off, dst.n + src.n}
+			} else {
+				buf := append(append([]int64(nil), dst.bytes()...), add...)
+				h.views[x] = bview{&buf, 0, int64(len(buf))}
+			}
+			return
+		}
+		if g := x.Call.StaticCallee(); g != nil && g.String() == "(*math/big.Int).SetBytes" {
+			if vw, ok := h.viewOf(x.Call.Args[1]); ok {
+				cp := append([]int64(nil), vw.bytes()...)
+				h.setBytes = &cp
+			} else {
+				h.fail("the bytes handed to big.Int.SetBytes cannot be evaluated")
+			}
+			return
+		}
 		if g := x.Call.StaticCallee(); g != nil && !x.Call.IsInvoke() && h.vl.Enter(g) {
 			h.calls = append(h.calls, x)
 		}
@@ -462,7 +841,7 @@ func (h *byteHeap) visit(in ssa.Instruction) {
 		}
 		switch a := x.X.(type) {
 		case *ssa.IndexAddr:
-			if !isByteSliceT(a.X.Type()) {
+			if _, isArr := byteArrayLen(a.X.Type()); !isArr && !isByteSliceT(a.X.Type()) {
 				return
 			}
 			delete(h.loads, x)
@@ -488,7 +867,7 @@ func (h *byteHeap) visit(in ssa.Instruction) {
 	case *ssa.Store:
 		switch a := x.Addr.(type) {
 		case *ssa.IndexAddr:
-			if !isByteSliceT(a.X.Type()) {
+			if _, isArr := byteArrayLen(a.X.Type()); !isArr && !isByteSliceT(a.X.Type()) {
 				return
 			}
 			vw, ok := h.viewOf(a.X)
